@@ -46,7 +46,7 @@ func (v *vc) wrapOrCheck(fr *frame, st *state, in ssa.Instruction, r string, t t
 	if !signed {
 		return wrapTerm(r, t)
 	}
-	if fr.fc != nil && fr.fc.nosafety || v.wraps(fr) {
+	if v.noSafety(fr) || v.wraps(fr) {
 		return wrapTerm(r, t)
 	}
 	rn := v.define("ar", "Int", r)
@@ -174,12 +174,26 @@ func (v *vc) binop(fr *frame, st *state, in *ssa.BinOp) string {
 		}
 		return v.define(name, "Int", v.wrapOrCheck(fr, st, in, fmt.Sprintf("(* %s %s)", x, y), t))
 	case token.QUO, token.REM:
-		if !(fr.fc != nil && fr.fc.nosafety) {
+		if !(v.noSafety(fr)) {
 			v.oblige(st, "safety", "div", v.site(in), fmt.Sprintf("(not (= %s 0))", y), nil)
 		} else {
 			v.fact(st, fmt.Sprintf("(not (= %s 0))", y))
 		}
-		if _, yc := constInt(in.Y); !yc {
+		if _, yc := constInt(in.Y); !yc && v.fc != nil && v.fc.exactDiv && !signed && len(v.fc.exactDivs) > 0 {
+			// the divisor ranges over a small set of constants named by the contract: an ite chain of linear
+			// div/mod by each constant, the abstract function for any other divisor
+			fn, op := "uf_div", "div"
+			if in.Op == token.REM {
+				fn, op = "uf_rem", "mod"
+			}
+			term := fmt.Sprintf("(%s %s %s)", fn, x, y)
+			for i := len(v.fc.exactDivs) - 1; i >= 0; i-- {
+				c := v.fc.exactDivs[i]
+				term = fmt.Sprintf("(ite (= %s %s) (%s %s %s) %s)", y, c, op, x, c, term)
+			}
+			return v.define(name, "Int", term)
+		}
+		if _, yc := constInt(in.Y); !yc && !(v.fc != nil && v.fc.exactDiv && !signed) {
 			// division by a non-constant: abstract quotient / remainder with their valid range facts
 			// (keeps the solvers in linear arithmetic)
 			fn := "uf_div"
@@ -315,7 +329,7 @@ func (v *vc) bvBinop(fr *frame, st *state, in *ssa.BinOp, x, y string) string {
 		return v.define(name, sort, fmt.Sprintf("(%s %s %s)", op, x, amt))
 	case token.QUO, token.REM:
 		zero := v.sc.intLit(big.NewInt(0), t)
-		if !(fr.fc != nil && fr.fc.nosafety) {
+		if !(v.noSafety(fr)) {
 			v.oblige(st, "safety", "div", v.site(in), fmt.Sprintf("(not (= %s %s))", y, zero), nil)
 		}
 		op := "bvudiv"
